@@ -20,7 +20,7 @@ import sys
 import time
 import traceback
 
-from . import seams
+from . import monitors, seams
 from .night import ResultsTable
 from .runner import quiet_logging, run_poll
 from .streams import Streams, base_seed
@@ -141,15 +141,20 @@ class NightExec:
             self.bucket.put_fault_at, self.bucket.put_fault_kind = pf["at"], pf.get("kind", "raise")
         else:
             self.bucket.put_fault_at = None
+        monitors.reset()
         rec = run_poll(self.world, rows, prof, client=self.client, role=op.get("role", "primary"),
                        shared_args=shared, national_summary=op.get("national_summary"),
                        extra_feed_cols=op.get("extra_feed_cols"))
         rec.extra["op"] = op
+        rec.extra["mon"] = monitors.take()
         self.stats.polls += 1
         if rec.ok:
             self.stats.polls_ok += 1
         else:
             self.stats.repo_errors[rec.exc_type] += 1
+            if "NotEnoughSubunits" not in rec.exc_type:
+                import re as _re
+                self.stats.extra["exc: " + rec.exc_type.split(".")[-1] + ": " + _re.sub(r"[0-9]+", "N", (rec.exc_msg or ""))[:90]] += 1
         return rec
 
     def run(self):
@@ -205,6 +210,10 @@ class NullChecker:
 def execute_spec(family, spec):
     """Pure function of (spec, code under test) -> result dict."""
     stats = Stats()
+    for m in getattr(family, "MONITORS", []):
+        getattr(monitors, "install_" + m)()
+    if getattr(family, "SOLVER_SEAM", False):
+        seams.SOLVER.install()
     if hasattr(family, "run_custom"):
         violations, digest = family.run_custom(spec, stats)
     else:
